@@ -1,7 +1,7 @@
 """helpers shared by the per-property rule modules"""
 import ast
 
-from ..interp import Tok, TRUE, FALSE, pure_sym
+from ..interp import Tok, Val, TRUE, FALSE, pure_sym
 from ..karr import Lin
 from ..model import M, N, R, NPREV, RPREV, ONE, prove_eq, prove_ge
 
